@@ -61,6 +61,8 @@ def _unpack_of_row(c, f):
 
 
 def check(c):
+    from rules._shared import outputs_column_by_trigger_rules
+    outputs_column_by_trigger_rules(c, 'C19.outputs-shape')
     schema = sm.schema(c)
     tabs = sm.tables(c)
     c.floor('C19.schema', 'tables in TABLES_ATTRS', len(schema), 15)
